@@ -117,7 +117,9 @@ func (fv *FV) formatFacts(st *State, spec *FuncSpec, c *ssa.CallCommon, args []T
 			st.assume(Term{S: fmt.Sprintf("(pv_lineMsg %s %s)", res[0].S, elem(0).S), Sort: SBool})
 		} else {
 			fv.decls.Add(1, "pv_lineStr", "(declare-fun pv_lineStr (pv_Str pv_Val) Bool)")
+			fv.decls.Add(1, "pv_linePrefixed", "(declare-fun pv_linePrefixed (pv_Str) Bool)")
 			st.assume(Term{S: fmt.Sprintf("(pv_lineStr %s %s)", res[0].S, elem(0).S), Sort: SBool})
+			st.assume(Term{S: fmt.Sprintf("(pv_linePrefixed %s)", res[0].S), Sort: SBool})
 		}
 	}
 }
